@@ -67,8 +67,8 @@ for r in neutral:
     print("| %s | %d | %s |" % (r["id"], len(ch), ", ".join(bad) if bad else "none"))
 
 if old:
-    print("\n### 13.4 Second- and third-round seeds: the targeted check before and after the round\n")
-    print("`before` = the check as committed before the descriptions of that batch were read (commit bfd5a8c for the `-c`/`-d` seeds, f86ca1e for the three `-w` seeds that prompted a change); `after` = the committed check. Seeds of the later rounds not listed here were run only against the committed checks (all caught, 13.2).\n")
+    print("\n### 13.4 Later-round seeds: the targeted check before and after the round\n")
+    print("`before` = the check as committed before the descriptions of that batch were read (commit bfd5a8c for the `-c`/`-d` seeds, f86ca1e for the three `-w` seeds that prompted a change, 002433c for the `-v` seeds); `after` = the committed check. Seeds of the later rounds not listed here were run only against the committed checks (all caught, 13.2).\n")
     print("| seed | before | after |\n|---|---|---|")
     new = {r["id"]: r for r in seeded}
     for r in old:
